@@ -18,6 +18,7 @@ from ..entity_query_language.symbolic import (
     The,
     Variable,
     Literal,
+    DomainMapping,
 )
 
 from .dao import get_dao_class
@@ -715,6 +716,11 @@ class EQLTranslator:
         while isinstance(node, Attribute):
             names.append(node._attr_name_)
             node = node._child_
+        if isinstance(node, DomainMapping):
+            # e.g. an indexed collection (x.items[0].value) or a call, the chain does not start at a variable.
+            raise UnsupportedQueryTypeError(
+                f"Attribute chains over {type(node).__name__} expressions cannot be translated."
+            )
         return list(reversed(names))
 
     def _extract_base_class(self, query: Attribute) -> Optional[type]:
